@@ -4,6 +4,7 @@
 applied (and undo it). Stores the seed under /verif/seeded/PROP-K/ with meta.json."""
 import json, os, shutil, subprocess, sys, time
 prop, k = sys.argv[1], sys.argv[2]
+store_k = str(int(k) + int(os.environ.get("SEED_OFFSET", "0")))  # later rounds: stored as PROP-(K+offset)
 checks = sys.argv[3:] or [prop]
 out = f"/tmp/seed_{prop}_out"
 wt = f"/tmp/seed_{prop}"
@@ -36,12 +37,12 @@ try:
 finally:
     subprocess.run(["git", "-C", "/repo", "checkout", "-q", "--", "."])
 if ok:
-    d = f"/verif/seeded/{prop}-{k}"
+    d = f"/verif/seeded/{prop}-{store_k}"
     os.makedirs(d, exist_ok=True)
     shutil.copy(patch, f"{d}/patch.diff"); shutil.copy(demo, f"{d}/demo.py")
     notes = open(f"{out}/notes.md").read() if os.path.exists(f"{out}/notes.md") else ""
-    meta = dict(property=prop, seed=f"{prop}-{k}", source="independent sub-agent given only the property text and a scratch worktree",
+    meta = dict(property=prop, seed=f"{prop}-{store_k}", source="independent sub-agent given only the property text and a scratch worktree",
                 needs_to_manifest="see notes.md (excerpt of the author's notes)", confirmed=dict(demo_exit_before=r0.returncode, demo_exit_after=r1.returncode, test_suite=tail),
-                ran=[f"git -C /repo apply seeded/{prop}-{k}/patch.diff; ./check {c}; git -C /repo checkout -- ." for c in checks], check_results=results)
+                ran=[f"git -C /repo apply /verif/seeded/{prop}-{store_k}/patch.diff; ./check {c}; git -C /repo checkout -- ." for c in checks], check_results=results)
     json.dump(meta, open(f"{d}/meta.json", "w"), indent=1)
     open(f"{d}/notes.md", "w").write(notes)
